@@ -23,6 +23,7 @@ META = dict(
          "computes margin and pool means from the CVR list it later samples (outside the library).",
     technique="AST-to-term translation with exhaustive decision tables + computer-algebra identity; sibling filter agreement",
 )
+META["text"] += " (R6 = C06.R4) each datum is B of the MVR and the CVR of the same card, with the contest's own use_style."
 
 SPEC_OMEGA = '''
 def spec(self, mvr, cvr, use_style):
